@@ -1,0 +1,45 @@
+//go:build verif
+
+package kv
+
+// Contracts for the deductive checks in /verif (read by /verif/govc; comment-only, no code).
+
+//@ import indexer github.com/tendermint/tendermint/state/indexer
+//@ import query github.com/tendermint/tendermint/libs/pubsub/query
+
+// rangeHit / condHit: the stored block with height key k satisfies the range / the single condition.
+// ASSUMED (trusted) of the two scanning helpers: they return the matches of their condition, intersected with the
+// heights filtered so far unless this is the first condition. Their database scans are not under contract.
+//@ spec func rangeHit(qr indexer.QueryRange, k string) bool
+//@ spec func condHit(c query.Condition, k string) bool
+//@ func BlockerIndexer.matchRange
+//@   trusted
+//@   assigns nothing
+//@   ensures hits: result1 == nil ==> forall(k, has(result0, k) <==> (rangeHit(qr, k) && (firstRun || has(filteredHeights, k))))
+//@ func BlockerIndexer.match
+//@   trusted
+//@   assigns nothing
+//@   ensures hits: result1 == nil ==> forall(k, has(result0, k) <==> (condHit(c, k) && (firstRun || has(filteredHeights, k))))
+//@ func BlockerIndexer.Has
+//@   trusted
+//@   assigns nothing
+//@ func lookForHeight
+//@   trusted
+//@   assigns nothing
+//@ func intInSlice
+//@   assigns nothing
+//@   ensures def: result <==> exists(j, 0, len(list), list[j] == a)
+//@   loop 1 invariant none: 0 <= rangeindex + 1 && rangeindex + 1 <= len(list) && forall(j, 0, rangeindex + 1, list[j] != a)
+
+// The conditions of a query are combined as a conjunction: every height kept satisfies every range processed so far,
+// and once a range condition has been processed the set of heights is initialised (an empty intermediate result stays
+// empty and is never replaced by the matches of a later condition alone).
+//@ func BlockerIndexer.Search
+//@   atcall intInSlice init: len(ranges) > 0 ==> heightsInitialized
+//@   atcall intInSlice sound: forall(k, has(filteredHeights, k) ==> forall(rk, has(ranges, rk) ==> rangeHit(ranges[rk], k)))
+//@   loop 1 invariant init: forall(rk, visitedn(1, rk) ==> heightsInitialized)
+//@   loop 1 invariant sound: forall(k, has(filteredHeights, k) ==> forall(rk, visitedn(1, rk) ==> rangeHit(ranges[rk], k)))
+//@   loop 1 invariant first: !heightsInitialized ==> forall(rk, !visitedn(1, rk))
+//@   loop 2 invariant init: len(ranges) > 0 ==> heightsInitialized
+//@   loop 2 invariant sound: forall(k, has(filteredHeights, k) ==> forall(rk, has(ranges, rk) ==> rangeHit(ranges[rk], k)))
+//@   loop 3 invariant none: true
